@@ -197,7 +197,7 @@ func (c *Chain) slot() string {
 func (c *Chain) project(st *list.AclState) *Post {
 	w := c.w
 	p := &Post{Ent: map[string]bool{}, Perm: map[string]string{}, Status: map[string]string{}, Req: map[string]string{},
-		Inv: map[string]InvState{}}
+		Rgen: map[string]int{}, Inv: map[string]InvState{}}
 	for _, a := range w.meta.AccSeq {
 		p.Perm[a], p.Status[a], p.Req[a] = "none", "none", "none"
 	}
@@ -222,6 +222,12 @@ func (c *Chain) project(st *list.AclState) *Post {
 		if rr, err := st.Record(w.pub(a)); err == nil {
 			if rr.Type == list.RequestTypeJoin {
 				p.Req[a] = "join"
+				p.Rgen[a] = -1 // a generation the harness does not know: shows up as a mismatch
+				for g, gi := range c.gens {
+					if gi.recId == rr.KeyRecordId {
+						p.Rgen[a] = g + 1
+					}
+				}
 			} else {
 				p.Req[a] = "remove"
 			}
